@@ -45,6 +45,8 @@ type c20In struct {
 	Sigs    []c20Signed `json:"sigs,omitempty"`
 	Chunk   int         `json:"chunk,omitempty"`
 	EOFData bool        `json:"eofdata,omitempty"`
+	// encstream: how each of Sigs is handed to the one Encoder: encode | encoded | encoded-trim | cs | cs-trim
+	Modes []string `json:"modes,omitempty"`
 }
 
 type c20Signed struct {
@@ -423,10 +425,12 @@ func c20ExecRaw(i c20In) vh.Out {
 			tags = append(tags, i.Tag)
 		}
 		return vh.Out{Observed: map[string]interface{}{"results": results}, Coq: coq, NonTrivial: nok > 0, Tags: tags}
-	case "chunk":
+	case "chunk", "encstream":
 		var encs [][]byte
-		var origs []string
-		for _, sg := range i.Sigs {
+		var origs, items []string
+		var wbuf bytes.Buffer
+		wenc := NewEncoder(&wbuf)
+		for k, sg := range i.Sigs {
 			a, err := c20Sign(sg.Type, sg.H, sg.Body)
 			if err != nil {
 				panic(fmt.Sprintf("chunk case must be signable: %v", err))
@@ -434,18 +438,47 @@ func c20ExecRaw(i c20In) vh.Out {
 			_, sig := a.Signature()
 			encs = append(encs, Encode(a))
 			origs = append(origs, "("+c20Map(a.Headers())+", "+c20Bytes(string(a.Body()))+", "+c20Bytes(string(sig))+", "+c20Bytes(string(Encode(a)))+")")
+			if i.Kind == "encstream" {
+				content, _ := a.Signature()
+				trimmed := bytes.TrimSuffix(sig, nl)
+				item := Encode(a)
+				var werr error
+				switch i.Modes[k] {
+				case "encode":
+					werr = wenc.Encode(a)
+				case "encoded":
+					werr = wenc.WriteEncoded(item)
+				case "encoded-trim":
+					item = bytes.TrimSuffix(item, nl)
+					werr = wenc.WriteEncoded(item)
+				case "cs":
+					werr = wenc.WriteContentSignature(content, sig)
+				case "cs-trim":
+					item = bytes.TrimSuffix(item, nl)
+					werr = wenc.WriteContentSignature(content, trimmed)
+				default:
+					panic("bad mode " + i.Modes[k])
+				}
+				if werr != nil {
+					panic(werr)
+				}
+				items = append(items, c20Bytes(string(item)))
+			}
 		}
 		stream := c20Stream(encs)
+		if i.Kind == "encstream" {
+			stream = append([]byte{}, wbuf.Bytes()...)
+		}
 		d := NewDecoderStressed(&c20Chop{data: append([]byte{}, stream...), n: i.Chunk, eofData: i.EOFData}, i.Lim[0], i.Lim[1], i.Lim[2], i.Lim[3])
 		var results []c20Res
-		var items []string
+		var ritems []string
 		timeout := false
 		verified := true
 		nok := 0
 		for len(results) < len(encs)+2 {
 			r := c20Call(d.Decode)
 			results = append(results, r)
-			items = append(items, r.coq())
+			ritems = append(ritems, r.coq())
 			if r.Kind == "timeout" {
 				timeout = true
 			}
@@ -456,8 +489,15 @@ func c20ExecRaw(i c20In) vh.Out {
 			nok++
 		}
 		coq := fmt.Sprintf("(CChunk (mkLim %d %d %d %d) [%s] %s %d [%s] %s %s)", i.Lim[0], i.Lim[1], i.Lim[2], i.Lim[3], strings.Join(origs, "; "),
-			c20Bytes(string(stream)), i.Chunk, strings.Join(items, "; "), vh.CoqBool(verified), vh.CoqBool(timeout))
+			c20Bytes(string(stream)), i.Chunk, strings.Join(ritems, "; "), vh.CoqBool(verified), vh.CoqBool(timeout))
+		if i.Kind == "encstream" {
+			coq = fmt.Sprintf("(CEnc (mkLim %d %d %d %d) [%s] [%s] %s %d [%s] %s %s)", i.Lim[0], i.Lim[1], i.Lim[2], i.Lim[3], strings.Join(items, "; "),
+				strings.Join(origs, "; "), c20Bytes(string(stream)), i.Chunk, strings.Join(ritems, "; "), vh.CoqBool(verified), vh.CoqBool(timeout))
+		}
 		tags := []string{fmt.Sprintf("chunk-decoded-%d-of-%d", nok, len(encs)), "chunk-ends-" + results[len(results)-1].Kind, fmt.Sprintf("chunk-buf-%d", i.Lim[0])}
+		for _, m := range i.Modes {
+			tags = append(tags, "encoder-"+m)
+		}
 		if i.Tag != "" {
 			tags = append(tags, i.Tag)
 		}
@@ -998,6 +1038,40 @@ func c20Gen(r *vh.Rand, tier string, n int) []c20In {
 	}
 	ins = append(ins, c20Boundary(r, tier)...)
 	ins = append(ins, c20BigBodies(r, tier)...)
+	// streams of 1..5 assertions written through ONE Encoder, each handed over in one of the five ways (Encode,
+	// WriteEncoded with / without the final newline, WriteContentSignature with / without it): every pair of ways for
+	// two assertions, then random longer streams
+	modes := []string{"encode", "encoded", "encoded-trim", "cs", "cs-trim"}
+	encItem := func() c20Signed {
+		typ, h, body := c20Signable(r, true)
+		if r.Chance(1, 6) {
+			body = []byte(r.Pick([]string{"\n", "x\n\n", "\n\nx", "tail\n"}))
+		}
+		return c20Signed{Type: typ, H: h, Body: body}
+	}
+	prodLim := []int{defaultDecoderBufSize, MaxHeadersSize, MaxBodySize, MaxSignatureSize}
+	for _, m1 := range modes {
+		for _, m2 := range modes {
+			ins = append(ins, c20In{Kind: "encstream", Sigs: []c20Signed{encItem(), encItem()}, Modes: []string{m1, m2}, Lim: prodLim, Tag: "encstream-pairs"})
+		}
+	}
+	for k := 0; k < n/8; k++ {
+		cnt := r.Range(1, 5)
+		var sigs []c20Signed
+		var ms []string
+		for j := 0; j < cnt; j++ {
+			sigs = append(sigs, encItem())
+			ms = append(ms, r.Pick(modes))
+		}
+		lim := prodLim
+		chunk := 0
+		if r.Bool() {
+			buf := []int{8, 16, 50, 100, 512}[r.Intn(5)]
+			lim = []int{buf, 1 << 22, 1 << 22, 1 << 22}
+			chunk = r.Range(0, 2*buf)
+		}
+		ins = append(ins, c20In{Kind: "encstream", Sigs: sigs, Modes: ms, Lim: lim, Chunk: chunk, EOFData: r.Chance(1, 4), Tag: "encstream-random"})
+	}
 	for _, n := range []int{3900, 4096, 9000} { // the same through Decode and NewDecoder side by side
 		ins = append(ins, c20In{Kind: "codec", Type: "test-only", H: map[string]c20Val{"authority-id": c20S("canonical"), "primary-key": c20S("k")},
 			Body: c20Body(n, 'z'), Tag: "codec-normalised"})
